@@ -114,8 +114,16 @@ def _produce(ctx, rng, tmpdir):
     if k == "from_arrays":
         z = surfaces.make(rng.randrange(2 ** 31), max_size=3, tri_only=True)
         A = np.array(z["V"], float)
-        m = M.mesh.from_arrays(A, F=np.array(z["F"], dtype=np.int64))
-        return m, k
+        # index arrays of any integer type that can hold the indices (uint8 / int16 rows stay what they are inside the mesh)
+        dts = [np.int64, np.int32] + ([np.int16, np.uint16] if len(A) < 32000 else []) + ([np.uint8] if len(A) < 256 else [])
+        dt = rng.choice(dts)
+        if rng.random() < 0.4:
+            # close to the capacity of an 8-bit index: 170-225 vertices held in uint8 rows (a merge shifts them past 255)
+            g = rng.randint(12, 14)
+            Vg, Fg, _ = surfaces.grid(g, g, "tri", rng)
+            A, z, dt = np.array(Vg, float), {"F": Fg}, np.uint8
+        m = M.mesh.from_arrays(A, F=np.array(z["F"], dtype=dt))
+        return m, k + ":" + np.dtype(dt).name
     if k == "loader":
         z = surfaces.make(rng.randrange(2 ** 31), max_size=3)
         path = os.path.join(tmpdir, "p%d.obj" % rng.randrange(10 ** 6))
